@@ -72,6 +72,7 @@ type hpScenario struct {
 	Requests       []hpRequest `json:"requests"`
 	OneChunk       bool        `json:"one_chunk,omitempty"`  // all requests delivered in one read
 	Sequential     bool        `json:"sequential,omitempty"` // request i+1 is sent only after the response to request i arrived
+	Settle         bool        `json:"settle,omitempty"`     // with Sequential: ... and after the proxy went idle (its clean-up of request i ran)
 	Reverse        bool        `json:"reverse,omitempty"`    // the upstream answers only once all requests arrived, last request first
 	RouteTimeoutMs int         `json:"route_timeout_ms,omitempty"`
 	TryTimeoutMs   int         `json:"try_timeout_ms,omitempty"`
@@ -499,6 +500,11 @@ func hpBody(sc *hpScenario, obs *hpObs) {
 					fr, _, _ := hpParse(down.Written())
 					return len(fr) >= want || down.IsClosed()
 				})
+				if sc.Settle {
+					// the proxy releases a request's resources after it wrote the response: a client that
+					// wants the freed capacity has to give it that moment
+					vrt.QuiesceNoTimers()
+				}
 			}
 		}
 		if sc.OneChunk {
